@@ -124,6 +124,7 @@ class SimHandler:
         self.counts = collections.Counter()
         self.raise_at = {}         # (event, nth) -> True
         self.kick_at = {}          # (event, nth) -> (client index to disconnect from inside the handler, shutdown?)
+        self.on_connect_sends = [] # send specs executed inside handler.connect for every new client
         self.stall_at = {}         # nth update -> seconds
         self.ops = collections.deque()
         self.echo = None
@@ -176,6 +177,10 @@ class SimHandler:
         self.cid(client)
         w.server_conns.append(client)
         w.name_conn(client, "S<%s#%d" % (w.net.name(client.addr), len(w.server_conns)))
+        for sop in self.on_connect_sends:
+            # the server application greets the new client from inside its connect handler
+            w.probe("server_send_from_connect_handler")
+            w.app_send("S", client, dict(sop, from_connect_handler=True))
         self._ev("connect", client, (client.addr, client.token))
 
     def disconnect(self, client):
@@ -491,7 +496,8 @@ class World:
         rec = {"mid": mid, "who": who, "inc": inc, "peer": peer, "conn": self.conn_name(conn) if conn is not None else None,
                "len": len(payload), "sig": sig(payload), "retry": retry, "api": api, "t": k.now,
                "status": conn.status.name() if conn is not None else None, "cb": bool(op.get("cb")),
-               "ok": None, "echo": bool(op.get("echo")), "on_connect": bool(op.get("on_connect")), "small": bytes(payload[:24]),
+               "ok": None, "echo": bool(op.get("echo")), "on_connect": bool(op.get("on_connect")), "from_connect_handler": bool(op.get("from_connect_handler")),
+               "small": bytes(payload[:24]),
                "q0": len(conn.outgoing_messages) if conn is not None else 0,
                "msgseq0": int(conn.seq_message) if conn is not None else 0,
                "fragseq0": int(conn.seq_fragment) if conn is not None else 0}
@@ -759,6 +765,8 @@ class World:
                         k.at(op["t"], self.snode, self.op_shutdown, op, tag="reactor")
                     elif op["op"] == "hraise":
                         self.handler.raise_at[(op["event"], op["nth"])] = True
+                    elif op["op"] == "hgreet":
+                        self.handler.on_connect_sends.append(op)
                     elif op["op"] == "sockerr":
                         self.sockerrs.append((op["t"], op["t"] + op["d"], client_addr(op["c"])))
                     elif op["op"] == "hkick":
